@@ -2232,6 +2232,42 @@ func (d *Document) parseParagraphProperties(decoder *xml.Decoder, paragraph *Par
 				if err := d.skipElement(decoder, t.Name.Local); err != nil {
 					return err
 				}
+			case "keepNext":
+				// 与下一段保持在一起
+				paragraph.Properties.KeepNext = &KeepNext{Val: getAttributeValue(t.Attr, "val")}
+				if err := d.skipElement(decoder, t.Name.Local); err != nil {
+					return err
+				}
+			case "keepLines":
+				// 段落中的行保持在一起
+				paragraph.Properties.KeepLines = &KeepLines{Val: getAttributeValue(t.Attr, "val")}
+				if err := d.skipElement(decoder, t.Name.Local); err != nil {
+					return err
+				}
+			case "pageBreakBefore":
+				// 段前分页
+				paragraph.Properties.PageBreakBefore = &PageBreakBefore{Val: getAttributeValue(t.Attr, "val")}
+				if err := d.skipElement(decoder, t.Name.Local); err != nil {
+					return err
+				}
+			case "widowControl":
+				// 孤行控制
+				paragraph.Properties.WidowControl = &WidowControl{Val: getAttributeValue(t.Attr, "val")}
+				if err := d.skipElement(decoder, t.Name.Local); err != nil {
+					return err
+				}
+			case "outlineLvl":
+				// 大纲级别
+				paragraph.Properties.OutlineLevel = &OutlineLevel{Val: getAttributeValue(t.Attr, "val")}
+				if err := d.skipElement(decoder, t.Name.Local); err != nil {
+					return err
+				}
+			case "snapToGrid":
+				// 网格对齐
+				paragraph.Properties.SnapToGrid = &SnapToGrid{Val: getAttributeValue(t.Attr, "val")}
+				if err := d.skipElement(decoder, t.Name.Local); err != nil {
+					return err
+				}
 			case "numPr":
 				// 编号属性
 				numPr, err := d.parseNumberingProperties(decoder)
